@@ -500,7 +500,7 @@ func joinParts(x ssa.CallInstruction) []ssa.Value {
 }
 
 func init() {
-	register(&Rule{ID: "C10.cwd", Floor: 0, Also: []string{"C14"},
+	register(&Rule{ID: "C10.cwd", Floor: 0, Also: []string{"C14", "C16"},
 		Text: "the working directory a BasePathFS keeps for itself is always a path of its own name space: every SetCurDir in the package receives a FromBasePath result (an absolute virtual path), or a field that is only ever assigned such a result - relative paths are joined to it, never handed to the base file system",
 		Run:  c10Cwd})
 }
